@@ -392,4 +392,4 @@ def main(run: common.Run):
 
 
 if __name__ == "__main__":
-    common.guarded_main("C20", "proof", main)
+    common.guarded_main("C20", "proof", main, generic_replay=True)
